@@ -1189,12 +1189,16 @@ class CompilerPassGatherCode(CompilerPass):
                 i_line += 1
                 new_code.append(line)
 
+        # a label is referenced as a whole operand of a jump / branch instruction or of
+        # 'move' (address of a list loop body); the same text inside a string
+        # (HASH("pump")), a comment or another kind of operand (a logic type) is not a label
+        operand = re.compile(r'"[^"]*"|#.*|[^\s"#]+')
         for line_num, line in enumerate(new_code):
+            tokens = operand.findall(line)
+            if not tokens or not (is_branch(tokens[0]) or tokens[0] == "move"):
+                continue
             for label, target_line in label_map.items():
-                # labels may contain dots ('update.display'): a dot is part of the
-                # name, not a word boundary
-                pattern = r"(?<![\w.]){}(?![\w.])".format(re.escape(label))
-                if re.search(pattern, line):
+                if label in tokens[1:]:
                     if relative_numbers:
                         offset = target_line - line_num
                         replacement = str(offset)
@@ -1206,7 +1210,10 @@ class CompilerPassGatherCode(CompilerPass):
                     else:
                         replacement = str(target_line)
 
-                    line = re.sub(pattern, replacement, line)
+                    line = operand.sub(
+                        lambda m: replacement if m.group(0) == label else m.group(0),
+                        line,
+                    )
             new_code[line_num] = line
 
         new_code = "\n".join(new_code)
